@@ -151,6 +151,37 @@ impl C01 {
     }
 }
 
+impl C01 {
+    fn misc_case(&self, cx: &mut Ctx, rng: &mut Rng) {
+        use crate::gen::bitmap_c01 as bm;
+        use crate::gen::misc_c01 as mc;
+        use crate::sfnt;
+        let vf = super::c12::c12_gen::gen_vfont(rng, true);
+        let built = super::c12::c12_gen::build_font(&vf, rng);
+        let host = match sfnt::Font::parse(&built.bytes) {
+            Some(h) => h,
+            None => {
+                cx.inconclusive("generated-font-unparsable");
+                return;
+            }
+        };
+        let n = host.gets("maxp").and_then(sfnt::tables::maxp_num_glyphs).unwrap_or(4);
+        let axis_count = host.gets("fvar").and_then(|f| sfnt::be16(f, 8)).unwrap_or(1) as usize;
+        let mut desc = vec!["generated-variable-font+kern+cvar".to_string()];
+        let (mut kern, kfields) = mc::gen_kern(rng, n);
+        let ncvt = rng.below(40) as u16;
+        let (cvt, mut cvar, cfields) = mc::gen_cvt_cvar(rng, axis_count, ncvt);
+        for _ in 0..rng.below(3) {
+            let d = if rng.bool() { bm::fault_fields(rng, &mut kern, &kfields) } else { bm::fault_fields(rng, &mut cvar, &cfields) };
+            cx.class("fault:img.field");
+            desc.push(d);
+        }
+        cx.class("seed:generated-kern-cvar");
+        let data = bm::attach(&host, &[("kern", kern), ("cvt ", cvt), ("cvar", cvar)]);
+        self.run(cx, rng, "generated/variable+kern+cvar.ttf", &data, &desc);
+    }
+}
+
 impl Prop for C01 {
     fn exhaustive(&mut self, cx: &mut Ctx, shard: u64, of: u64) {
         // committed witnesses of fixed defects and known findings, and the unfaulted seeds
@@ -212,6 +243,11 @@ impl Prop for C01 {
         // corpus has no CBDT font and reaches EBLC only through a non-default image filter.
         if rng.chance(1, 7) {
             self.image_case(cx, rng);
+            return;
+        }
+        // Generated kern (formats 0 / 2) and cvt / cvar tables on a generated variable font.
+        if rng.chance(1, 16) {
+            self.misc_case(cx, rng);
             return;
         }
         // F6: container faults behind the compression layer (WOFF2 transforms, WOFF directory/zlib)
